@@ -120,7 +120,17 @@ def extPolicy : List ((String × String) × Policy) := [
   (("badgerstore.QueryStore", "iq"), .setup []),
   (("badgerstore.QueryStore", "log"), .setup ["QueryStore.SetLogger"]),
   (("badgerstore.QueryStore", "idxs"), .setup ["QueryStore.AddIndex"]),
-  (("badgerstore.QueryStore", "onQueryChange"), .setup ["QueryStore.OnQueryChange"])
+  (("badgerstore.QueryStore", "onQueryChange"), .setup ["QueryStore.OnQueryChange"]),
+  -- an index query is the caller's value: the index-query callback may hand the same one to
+  -- concurrent `QueryStore.Query` calls, so the library only ever reads it
+  (("badgerstore.IndexQuery", "Index"), .setup []),
+  (("badgerstore.IndexQuery", "KeyPrefix"), .setup []),
+  (("badgerstore.IndexQuery", "FilterKeys"), .setup []),
+  (("badgerstore.IndexQuery", "Offset"), .setup []),
+  (("badgerstore.IndexQuery", "Limit"), .setup []),
+  (("badgerstore.IndexQuery", "Reverse"), .setup []),
+  (("badgerstore.Index", "Name"), .setup []),
+  (("badgerstore.Index", "Key"), .setup [])
 ]
 
 def policyOf (s f : String) : Option Policy := (policy ++ extPolicy).lookup (s, f)
